@@ -334,4 +334,31 @@ theorem C16_close_order_matters (sides : List Nat) (fuel : Nat) (c t : Nat) (ht 
   have : ¬ c = t := fun e => ht e.symm
   simp [closePub, deliveries, this]
 
+/-! ## a pilot's session closes, the others go on -/
+
+theorem C16_unregister_only_primary : Gen.unregisterOnlyPrimary = true := by decide
+
+/-- **when a pilot's side closes its session, the exchange between the remaining sides is what it was**: every
+    message one of them publishes with the forward flag still reaches every other remaining side exactly once
+    (and the side that closed no more) - because only the client tells the proxy service to end the session's
+    channels (`C16_unregister_only_primary`, read from the source) -/
+theorem C16_pilot_close_keeps_channels (sides : List Nat) (hn : sides.Nodup) (fuel : Nat) (c : Nat) (hc : c ≠ 0)
+    (s : Nat) (hs : s ∈ sides) (hsc : s ≠ c) (body : Nat) :
+    (∀ t ∈ sides, t ≠ c → t ≠ s →
+      deliveries (localPub (sidesAfterClose Gen.unregisterOnlyPrimary sides c) (fuel + 2) s { origin := none, fwd := some true, body := body }) t = 1)
+    ∧ deliveries (localPub (sidesAfterClose Gen.unregisterOnlyPrimary sides c) (fuel + 2) s { origin := none, fwd := some true, body := body }) c = 0 := by
+  rw [C16_unregister_only_primary]
+  have hrest : sidesAfterClose true sides c = sides.filter (· ≠ c) := by simp [sidesAfterClose, hc]
+  rw [hrest]
+  have hn' : (sides.filter (· ≠ c)).Nodup := hn.sublist List.filter_sublist
+  have hs' : s ∈ sides.filter (· ≠ c) := List.mem_filter.mpr ⟨hs, by simpa using hsc⟩
+  obtain ⟨_, h2, _, h4⟩ := C16 (sides.filter (· ≠ c)) hn' fuel s hs' { origin := none, fwd := some true, body := body }
+  refine ⟨?_, ?_⟩
+  · intro t ht htc hts
+    exact h2 ⟨rfl, Or.inl rfl⟩ t (List.mem_filter.mpr ⟨ht, by simpa using htc⟩) hts
+  · exact h4 c (by simp) (fun h => hsc h.symm)
+
+/-- the guard matters: were every closing side to send the request, nobody would be connected afterwards -/
+example : sidesAfterClose false [0, 1, 2] 1 = [] ∧ sidesAfterClose true [0, 1, 2] 1 = [0, 2] := by decide
+
 end RPVerif.C16
